@@ -1224,6 +1224,9 @@ func @n2(a, b int) int     { return a*b + 1 }
 import (
 	"fmt"
 	"os"
+	"reflect"
+	"runtime"
+	"strings"
 	"testing"
 )
 
@@ -1231,8 +1234,16 @@ var _ = os.Exit
 
 func sameNameT@MK() string { return "internal test" }
 
+// fnName@MK reports the (possibly obfuscated) name of a function without its package part.
+func fnName@MK(f any) string {
+	n := runtime.FuncForPC(reflect.ValueOf(f).Pointer()).Name()
+	return n[strings.LastIndex(n, ".")+1:]
+}
+
 func Test@MKInternal(t *testing.T) {
 	_ = sameName@MK() + sameNameT@MK()
+	fmt.Println("zqname @MK pkg", fnName@MK(sameName@MK))
+	fmt.Println("zqname @MK int", fnName@MK(sameNameT@MK))
 	v := @N1(4)
 	fmt.Println("zqout internal", v.@m1(), @n2(3, 4))
 	if v.@m1() == "" {
@@ -1277,6 +1288,9 @@ func TestMain(m *testing.M) {
 
 import (
 	"fmt"
+	"reflect"
+	"runtime"
+	"strings"
 	"testing"
 
 	"@PKGPATH"
@@ -1285,8 +1299,15 @@ import (
 func sameName@MK() string  { return "external test" }
 func sameNameT@MK() string { return "external test" }
 
+func fnNameX@MK(f any) string {
+	n := runtime.FuncForPC(reflect.ValueOf(f).Pointer()).Name()
+	return n[strings.LastIndex(n, ".")+1:]
+}
+
 func Test@MKExternal(t *testing.T) {
 	_ = sameName@MK() + sameNameT@MK()
+	fmt.Println("zqname @MK ext", fnNameX@MK(sameName@MK))
+	fmt.Println("zqname @MK extT", fnNameX@MK(sameNameT@MK))
 	v := @PKGNAME.@N1(21)
 	// a keyed literal and a field selection of a struct that also has an unexported field
 	w := @PKGNAME.@T1{@F2: "lit"}
